@@ -113,14 +113,22 @@ void harness(void) {
   in[n++] = ws();
 #endif
   uint64_t topsize = 99; uint8_t key[1] = {'a'};
+#if ELEM
   r = w_json_parse_elem(in, n, STRICT, 0, key, 1, &topsize, &val, sout, 16); OBS(r);
+#else
+  r = w_json_parse(in, n, STRICT, &val, sout, 16); OBS(r); (void)key;
+#endif
   if (TPL != 33 && STRICT) ASSERT(REJECTED(r), "strict mode rejects an extension below a dictionary value (one-character constant, hex integer, trailing comma)");
   else {
+#if !ELEM
+    ASSERT(r == 6 && val == 1, "accepted as a dictionary with one member");
+#else
     ASSERT(topsize == 1, "the dictionary has one member");
     if (TPL == 33 || TPL == 37) ASSERT(r == 2 && val == 7, "member a is the int 7");
     if (TPL == 34) ASSERT(r == 1 && val == 1, "member a is true");
     if (TPL == 35) ASSERT(r == 2 && val == 0x1C, "member a is the int 0x1C");
     if (TPL == 36) ASSERT(r == 5 && val == 1, "member a is a list with one element");
+#endif
   }
 #endif
 }
